@@ -141,7 +141,8 @@ def run(prop, tier):
             WD.set_state(w, ps, [[Fr(float(x) * jit) for x in rows] for rows in st])
             try:
                 chain = sorted(rng.choice(np.arange(1, K - 1), size=2, replace=False).tolist())
-                rid = restart_chain(at, (2000, 2000 + K * dt, dt), Fw, ps, None, None, chain, dict(world=w["id"], rep=rep), records, index, rid, spreadsheet=(rep % 2 == 1))
+                pg_, ins_ = WD.build_programs(w, ps, pv, S.tvec)
+                rid = restart_chain(at, (2000, 2000 + K * dt, dt), Fw, ps, pg_, ins_, chain, dict(world=w["id"], rep=rep), records, index, rid, spreadsheet=(rep % 2 == 1))
             except Exception as ex:
                 V.violation("C10 restart raised %s world=%s" % (type(ex).__name__, w["id"].split("_dt")[0]), dict(world=w["id"], error=str(ex)[:300]))
     # ---- library models, with and without programs active before / after the restart year
